@@ -9,6 +9,10 @@ SHARES_Q = ['ks2+ds1', 'ks2+ds2', 'ks3+ds1', 'ks3+ds2', 'ks3+ds3', 'ks4+ds1', 'k
             'ks3+ds3+ms3', 'ks2+ds2+ms2', 'ks4+ds2+ms3', 'c32+ks3+ds3+ms3', 'c64+ks2+ds1+ms2']
 CHECKER = ['chk+realmask', 'chk+ds1+realmask', 'chk+ks3+ds3+realmask', 'chk+ks2+ds2+ms2+realmask', 'chk+ks4+ds4+realmask', 'realmask']
 
+# the masked AEAD converts key shares to data shares through per-back-end word helpers that differ for every
+# (key shares, data shares) pair: all pairs on the two portable back ends with their own helpers, masked cases only
+SHARES_LIGHT = ['%s+ks%d+ds%d' % (b, ks, ds) for b in ('c64', 'c32') for ks in (2, 3, 4) for ds in (1, 2, 3, 4) if ds <= ks]
+
 def all_configs():
     out = []
     for b in ['', 'c64', 'c32', 'dxor', 'generic']:
@@ -51,6 +55,9 @@ def run(c):
                       'a configuration that fails to build, or whose run aborts (acquire/release checker) or truncates, violates the property',
                       'raw masked data, struct sizes and randomness consumption are not part of the comparison (only functional outputs and documented public fields)']
     cfgs = ['rel'] + BACKENDS + (all_configs() if th else SHARES_Q) + CHECKER
+    light = [] if th else [x for x in SHARES_LIGHT if x not in cfgs]
+    pm = Plan(); pm.cases = [cs for cs in p.cases if any('masked' in l for l in cs[0])]
+    cfgs = cfgs + light
     def try_build(fl):
         try: build(fl, allow_fail=True)
         except Exception: pass
@@ -67,7 +74,9 @@ def run(c):
             with open(rd + '/replay.sh', 'w') as f: f.write('#!/bin/sh\n%s/tools/build.sh %s\n' % (ROOT, fl))
             c.violation('build:' + fl, 'configuration %s does not build: %s' % (fl, out[-300:]), rd)
             continue
-        c.tv(p, fl, 'cfg', max_cost=30.0)
+        c.tv(pm if fl in light else p, fl, 'cfg', max_cost=30.0)
     c.cov['configurations'] = seen
+    c.cov['configurations_masked_cases_only'] = light
+    c.cov['masked_cases'] = len(pm.cases)
     c.cov['exhaustive'] = th
     c.cov['rule'] = 'one common workload (%d cases) x %d build configurations; distinct = workload cases' % (len(p.cases), len(seen))
